@@ -26,6 +26,10 @@ def script_for(cid, path, target_path, other_path, rnd, order=None, cap=0, logle
               "ctx 2", "open 2 %s r" % other_path, "init_read 2 2",
               "ctx 3", "open 3 %s.rw rw" % path, "init_read 3 3", "find_valid 3", "copy_chunks 2 3", "valid 3",
               "ctx 4", "open 4 %s r" % other_path.replace("valid-other", "valid-flag4"), "init_read 4 4", "find_matching 4 3", "find_matching 3 4", "find_matching 4 2", "find_matching 2 4", "free 4",
+              # as a delta source for a target with the SAME index (its own header without the data): every entry matches by
+              # checksum and both sizes, whatever sizes the index declares
+              "ctx 5", "open 5 %s.self rw" % path, "init_read 5 5", "ctx 6", "open 6 %s r" % path, "init_read 6 6", "copy_chunks 6 5", "valid 5",
+              "clear_error 0", "copy_chunks 0 5", "free 6", "free 5",
               "dl_init 0 3", "missing_range 2 3 3", "dl_set_range 0 2", "write_chunk_cb 0 rep:41:300", "dl_free 0",
               "free 3", "free 2", "free 1", "free 0", "end"]
     return "\n".join(lines) + "\n"
@@ -70,14 +74,27 @@ def run(tier):
             inputs.append((sname + "-raw-" + mname, mb))
     for (sname, buf, chunks) in corpus.special_files(rnd):
         inputs.append((sname, buf))
+    # otherwise valid files (empty first entry, real data of 100 KB behind the header) one of whose entries declares a stored
+    # size at an integer-width boundary: as a reader's input and as delta source / target with the same index, the copy and
+    # zero-fill loops work on the DECLARED size
+    for comp in (0, 2):
+        hb_ = ref.build_file([b"", corpus.rand(rnd, 100000), corpus.text(rnd, 50)], comp_type=comp, hash_type=1, chunk_hash_type=1)[0]
+        hp_ = ref.parse_header(hb_)
+        for v in (2**31 - 1, 2**31, 2**31 + 1, 2**32 - 1, 2**32, 2**32 + 5, 2**33, 2**63 - 1, 2**63):
+            for k in (1, 2):
+                ents = [dict(e) for e in hp_.entries]; ents[k]["clen"] = v
+                if comp == 0: ents[k]["ulen"] = v
+                inputs.append(("hugeclen-c%d-e%d-%d" % (comp, k, v), ref.rebuild_from_parse(hp_, hb_, entries=ents)))
     # degenerate inputs
     for name, b in (("empty", b""), ("one", b"\0"), ("magic", b"\0ZCK1"), ("magic-hdr", b"\0ZHR1"), ("ff", b"\xff" * 200), ("zeros", bytes(200)),
                     ("lead-only", seeds[0][1][:30]), ("text", b"not a zchunk file at all\n" * 10)):
         inputs.append((name, b))
     if tier == "quick" and len(inputs) > 1500:
-        keep = [x for x in inputs if (x[0].startswith("hdr-") and "+" not in x[0]) or x[0].startswith("special")]
-        rest = [x for x in inputs if x not in keep]
-        inputs = keep + rnd.sample(rest, 1500 - len(keep)) if len(keep) < 1500 else rnd.sample(inputs, 1500)
+        must = [x for x in inputs if x[0].startswith("special") or x[0].startswith("hugeclen")]
+        keep = [x for x in inputs if x[0].startswith("hdr-") and "+" not in x[0]]
+        rest = [x for x in inputs if x not in keep and x not in must]
+        room = 1500 - len(must)
+        inputs = must + (keep + rnd.sample(rest, room - len(keep)) if len(keep) < room else rnd.sample(keep + rest, room))
     valid = seeds[0][1]; valid2 = seeds[1][1]
     vt = os.path.join(wd, "valid-target.zck"); vo = os.path.join(wd, "valid-other.zck"); open(vo, "wb").write(valid2)
     # a valid uncompressed file that carries uncompressed-source checksums (pairs with zstd files by those)
@@ -89,6 +106,7 @@ def run(tier):
         cid = "i%d" % i
         names[cid] = name
         path = os.path.join(wd, cid + ".zck"); open(path, "wb").write(b); open(path + ".rw", "wb").write(b)
+        hh_ = ref.parse_header(b); open(path + ".self", "wb").write(b[:hh_.hdr_total] if (hh_.lead_size is not None and hh_.hdr_total and hh_.hdr_total <= len(b)) else b)
         tpath = os.path.join(wd, cid + ".tgt"); open(tpath, "wb").write(valid[:ref.parse_header(valid).hdr_total])
         scripts.append(script_for(cid, path, tpath, vo, rnd, "shuffle" if i % 3 == 2 else None,
                                   cap=(0, 0, 0, 0, 300, 0, 60, 0, 0, 7, 0)[i % 11], loglevel=(0 if i % 13 == 5 else None)))
@@ -195,7 +213,14 @@ def run(tier):
             continue
         idx = int(own[1:]); name, b = inputs[idx]
         keep = os.path.join(common.REPLAY, "C03-input-%d.zck" % idx); open(keep, "wb").write(b); open(keep + ".rw", "wb").write(b)
+        shutil.copy(os.path.join(wd, own + ".zck.self"), keep + ".self")
+        for aux_ in (vo, os.path.join(wd, "valid-flag4.zck")):          # the fixed companions a replay needs
+            shutil.copy(aux_, os.path.join(common.REPLAY, "C03-" + os.path.basename(aux_)))
         scr = scripts[idx].replace(os.path.join(wd, own + ".zck"), keep)
+        for aux_ in (vo, os.path.join(wd, "valid-flag4.zck")):
+            scr = scr.replace(aux_, os.path.join(common.REPLAY, "C03-" + os.path.basename(aux_)))
+        if os.path.exists(os.path.join(wd, own + ".tgt")):
+            shutil.copy(os.path.join(wd, own + ".tgt"), keep + ".tgt"); scr = scr.replace(os.path.join(wd, own + ".tgt"), keep + ".tgt")
         # re-run this case alone to make sure it repeats and to get the sanitizer's summary line
         errp = os.path.join(wd, "rerun.err")
         # (alone on the machine and with a budget of 90 s: a Hang must be a real non-termination, not load)
